@@ -12,9 +12,10 @@ import (
 )
 
 type arm struct {
-	key string
-	blk *ssa.BasicBlock // switch form: the case body
-	fn  *ssa.Function   // table form: the function stored under the key (a named function / method, or a literal)
+	key   string
+	blk   *ssa.BasicBlock // switch form: the case body
+	fn    *ssa.Function   // table form: the function stored under the key (a named function / method, or a literal)
+	bound bool            // table form: fn is a method value (receiver already bound), the call passes no receiver
 }
 
 type dispatchView struct {
@@ -23,6 +24,7 @@ type dispatchView struct {
 	table bool        // table form
 	lk    *ssa.Lookup // table form: the lookup
 	site  *ssa.Call   // table form: the call of the looked-up function
+	sel   *ssa.Call   // selector form: the call of the function that picks the handler (a switch returning function values)
 }
 
 // armCall is one handler invocation of an arm, with its arguments rendered in the dispatcher's frame.
@@ -54,6 +56,10 @@ func funcValueOf(v ssa.Value) *ssa.Function {
 			return x
 		case *ssa.MakeClosure:
 			f, _ := x.Fn.(*ssa.Function)
+			if f != nil && strings.HasPrefix(f.Synthetic, "bound method") {
+				v = f
+				continue
+			}
 			return f
 		case *ssa.ChangeType:
 			v = x.X
@@ -127,7 +133,64 @@ func (c *Ctx) dispatch(f *ssa.Function, scrut func(path string) bool) *dispatchV
 			dv.arms[k] = &arm{key: k, fn: fn}
 		}
 	})
+	if len(dv.arms) > 0 {
+		return dv
+	}
+	// selector form: handler, err := pick(key); handler(args...) where pick switches on the key and returns function values
+	forEachInstr(f, func(in ssa.Instruction) {
+		cl, ok := in.(*ssa.Call)
+		if !ok || cl.Call.IsInvoke() || cl.Call.StaticCallee() != nil || dv.sel != nil {
+			return
+		}
+		var sel *ssa.Call
+		switch x := cl.Call.Value.(type) {
+		case *ssa.Call:
+			sel = x
+		case *ssa.Extract:
+			if x.Index == 0 {
+				sel, _ = x.Tuple.(*ssa.Call)
+			}
+		}
+		if sel == nil {
+			return
+		}
+		g := sel.Call.StaticCallee()
+		if g == nil || !inModule(g) || g.Blocks == nil {
+			return
+		}
+		senv := c.calleeEnv(&sel.Call, g, nil)
+		arms := map[string]*arm{}
+		for k, blk := range c.caseTable(g, senv, scrut) {
+			for _, r := range returnsOf(g) {
+				if len(r.Results) == 0 || !blk.Dominates(r.Block()) {
+					continue
+				}
+				if fn := funcValueOf(r.Results[0]); fn != nil {
+					_, isMC := stripConv(r.Results[0]).(*ssa.MakeClosure)
+					arms[k] = &arm{key: k, fn: fn, bound: isMC && fn.Signature.Recv() != nil}
+				}
+			}
+		}
+		if len(arms) == 0 {
+			return
+		}
+		dv.table, dv.site, dv.sel, dv.arms = true, cl, sel, arms
+	})
 	return dv
+}
+
+func stripConv(v ssa.Value) ssa.Value {
+	for d := 0; d < 4; d++ {
+		switch x := v.(type) {
+		case *ssa.ChangeType:
+			v = x.X
+		case *ssa.MakeInterface:
+			v = x.X
+		default:
+			return v
+		}
+	}
+	return v
 }
 
 // calls lists the handler invocations of an arm.
@@ -154,7 +217,7 @@ func (c *Ctx) armCalls(dv *dispatchView, a *arm) []armCall {
 	if a.fn.Parent() == nil && a.fn.Synthetic == "" {
 		// a named function or a method expression: the dispatcher's call arguments are the handler's
 		args := dv.site.Call.Args
-		if a.fn.Signature.Recv() != nil && len(args) > 0 {
+		if a.fn.Signature.Recv() != nil && len(args) > 0 && !a.bound {
 			args = args[1:]
 		}
 		return []armCall{{callee: a.fn, args: render(args, nil)}}
@@ -174,8 +237,30 @@ func (c *Ctx) armCalls(dv *dispatchView, a *arm) []armCall {
 // foundOnly: in table form, every may-succeed return of the dispatcher lies behind the found edge of the lookup and
 // behind the success edge of the handler call.
 func (c *Ctx) tableGuards(dv *dispatchView) (foundOnly, callRequired bool) {
-	if !dv.table || dv.lk == nil || dv.site == nil {
+	if !dv.table || (dv.lk == nil && dv.sel == nil) || dv.site == nil {
 		return false, false
+	}
+	if dv.sel != nil {
+		// the selector refuses a key outside its cases (every exit that may succeed lies in a case), and the
+		// dispatcher goes on only when the selector succeeded
+		g := dv.sel.Call.StaticCallee()
+		inCase := true
+		for _, r := range returnsOf(g) {
+			if !maySucceed(r) {
+				continue
+			}
+			hit := false
+			for _, a := range dv.arms {
+				if fn := funcValueOf(r.Results[0]); fn != nil && fn == a.fn {
+					hit = true
+				}
+			}
+			inCase = inCase && hit
+		}
+		selOK, _, _ := c.Guard(dv.f, nil, &GCheck{Name: "handler selection succeeded", NoDescend: true, MatchCall: func(c *Ctx, call *ssa.Call, env Env) bool { return call == dv.sel }}, func(i ssa.Instruction) bool { return i == ssa.Instruction(dv.site) })
+		foundOnly = inCase && selOK
+		callRequired, _, _ = c.Guard(dv.f, nil, &GCheck{Name: "handler call succeeded", NoDescend: true, MatchCall: func(c *Ctx, call *ssa.Call, env Env) bool { return call == dv.site }}, nil)
+		return
 	}
 	if dv.lk.CommaOk {
 		foundOnly, _, _ = c.Guard(dv.f, nil, &GCheck{Name: "table lookup found the key", NoDescend: true, MatchOK: func(c *Ctx, v ssa.Value, env Env) bool { return v == ssa.Value(dv.lk) }}, nil)
